@@ -121,9 +121,11 @@ def satCountNat (vars : Nat) : BDD → Option Nat
 def kv (ws : List String) (key : String) : Option String :=
   ws.findSome? fun w => if w.startsWith (key ++ "=") then some (w.drop (key.length + 1)).toString else none
 
-def step (s : St) (line : String) : St × String :=
+def step1 (s : St) (line : String) : St × String :=
   let ws := words line
   match ws with
+  | ["pargc"] => (s, "ok")
+  | ["nodes"] => (s, "-")
   | "mgr" :: rest =>
     let vars := ((kv rest "vars").bind String.toNat?).getD 0
     ({ n := vars, l2v := Array.range vars, v2l := Array.range vars }, "ok")
@@ -288,6 +290,21 @@ def step (s : St) (line : String) : St × String :=
   | ["dropsubst", sid] =>
     if s.substs.contains sid then ({ s with substs := s.substs.erase sid }, "ok") else (s, "bad-op")
   | _ => (s, "bad-op")
+
+/-- `par t0:<line> ; t1:<line> ; …`: the items run concurrently in the implementation; threads only
+define and drop handles of their own, so the sequential execution in item order is the reference
+(C07) -/
+def step (s : St) (line : String) : St × String :=
+  if line.startsWith "par " then
+    let items := (line.drop 4).toString.splitOn " ; "
+    let (s', outs) := items.foldl (fun (acc : St × List String) it =>
+      let body := match it.trimAscii.toString.splitOn ":" with
+        | _ :: rest => ":".intercalate rest
+        | [] => it
+      let (s2, o) := step1 acc.1 body
+      (s2, o :: acc.2)) (s, [])
+    (s', " ; ".intercalate outs.reverse)
+  else step1 s line
 
 def proto : Proto := { σ := St, init := {}, step := step }
 
